@@ -1,5 +1,5 @@
 (* C16 - the transfer decoders are correct and total.  Statements only; proofs are in DecodeProofs.v. *)
-From MD Require Import Bytes Generated DecodeDefs DecodeSpec DecodeProofs.
+From MD Require Import Bytes Generated DecodeDefs DecodeSpec DecodeProofs Rfc2047Proofs.
 Local Open Scope N_scope.
 
 (* base64: for EVERY byte string the model of base64_decode (b64_pton with the len+1 target)
@@ -57,6 +57,13 @@ Theorem C16_2047_word_step_partial : forall s dec rest o,
   rfc2047_decode s = dec ++ o.
 Proof. exact rfc2047_word_step. Qed.
 Print Assumptions C16_2047_word_step_partial.
+
+(* the whole RFC 2047 clause: on a value that is a sequence of plain text (without "=?") and well-formed, decodable
+   encoded words (charset without '?', payload without "?=", encoding B or Q in either case) the decoder returns the
+   text and the decoded words in order, dropping the white space between two adjacent encoded words *)
+Theorem C16_2047_items : forall l, wf l = true -> rfc2047_decode (render l) = decode l.
+Proof. exact rfc2047_items. Qed.
+Print Assumptions C16_2047_items.
 
 (* non-vacuity: concrete inputs meeting the hypotheses / exercising the interesting branches *)
 Example C16_ex_b64 : spec_b64 (ascii [97;71;86;115;98;71;56;61]%nat) = Some (ascii [104;101;108;108;111]%nat)
